@@ -492,3 +492,50 @@ Theorem replaced_extended_provider_list_checked :
   (x_providers x' <> [] -> a_rm a = false /\ existsb (is_main a) (x_providers x') = true).
 Proof. exact replaced_list_checked. Qed.
 Print Assumptions replaced_extended_provider_list_checked.
+
+(* ================================================================== *)
+(* An entry's addresses and metadata.  For ANY entry (the main provider's included) of an
+   accepted advertisement: replacing its address list and metadata by any other values --
+   empty, the advertisement's own, anything -- is rejected unless the signed bytes
+   concat addresses ++ metadata are the same.  In particular a value cleared, or replaced
+   by the advertisement's own value, is rejected (there is no "the main entry may omit it"
+   equivalence in what is signed).  The delimiter-free boundary remains: bytes moved
+   between neighbouring values of one entry leave the payload unchanged
+   (Proofs.C05_AdSignature.Witness.entry_adjacent_shift), as for the advertisement. *)
+Theorem entry_addresses_and_metadata_signed :
+  forall (pubkey sigt peerid : Type) (verify : pubkey -> bytes -> sigt -> bool) (peer_id : pubkey -> peerid)
+         (peerid_eqb : peerid -> peerid -> bool) (Hf : bytes -> bytes) (decode_pid : bytes -> option peerid),
+  (forall a b, peerid_eqb a b = true <-> a = b) -> H_injective Hf ->
+  forall (st st' : bool) (a : ad pubkey sigt) (s : peerid) (x : ext pubkey sigt)
+         (l1 : list (provider pubkey sigt)) (p : provider pubkey sigt) (l2 : list (provider pubkey sigt))
+         (addrs' : list bytes) (md' : bytes),
+  verify_gen verify peer_id peerid_eqb (ideal_H Hf) decode_pid st a = Ok s -> a_ext a = Some x ->
+  x_providers x = (l1 ++ p :: l2)%list ->
+  (concat addrs' ++ md')%list <> (concat (p_addrs p) ++ p_md p)%list ->
+  is_ok (verify_gen verify peer_id peerid_eqb (ideal_H Hf) decode_pid st'
+           (upd_providers pubkey sigt a x (l1 ++ upd_pvalues pubkey sigt p addrs' md' :: l2)%list)) = false.
+Proof. exact entry_values_change_rejected. Qed.
+Print Assumptions entry_addresses_and_metadata_signed.
+
+Theorem entry_value_cleared_or_copied_from_ad_rejected :
+  forall (pubkey sigt peerid : Type) (verify : pubkey -> bytes -> sigt -> bool) (peer_id : pubkey -> peerid)
+         (peerid_eqb : peerid -> peerid -> bool) (Hf : bytes -> bytes) (decode_pid : bytes -> option peerid),
+  (forall a b, peerid_eqb a b = true <-> a = b) -> H_injective Hf ->
+  forall (st st' : bool) (a : ad pubkey sigt) (s : peerid) (x : ext pubkey sigt)
+         (l1 : list (provider pubkey sigt)) (p : provider pubkey sigt) (l2 : list (provider pubkey sigt)),
+  verify_gen verify peer_id peerid_eqb (ideal_H Hf) decode_pid st a = Ok s -> a_ext a = Some x ->
+  x_providers x = (l1 ++ p :: l2)%list ->
+  (p_md p <> [] ->
+     is_ok (verify_gen verify peer_id peerid_eqb (ideal_H Hf) decode_pid st'
+              (upd_providers pubkey sigt a x (l1 ++ upd_pvalues pubkey sigt p (p_addrs p) [] :: l2)%list)) = false) /\
+  (concat (p_addrs p) <> [] ->
+     is_ok (verify_gen verify peer_id peerid_eqb (ideal_H Hf) decode_pid st'
+              (upd_providers pubkey sigt a x (l1 ++ upd_pvalues pubkey sigt p [] (p_md p) :: l2)%list)) = false) /\
+  (a_md a <> p_md p ->
+     is_ok (verify_gen verify peer_id peerid_eqb (ideal_H Hf) decode_pid st'
+              (upd_providers pubkey sigt a x (l1 ++ upd_pvalues pubkey sigt p (p_addrs p) (a_md a) :: l2)%list)) = false) /\
+  (concat (a_addrs a) <> concat (p_addrs p) ->
+     is_ok (verify_gen verify peer_id peerid_eqb (ideal_H Hf) decode_pid st'
+              (upd_providers pubkey sigt a x (l1 ++ upd_pvalues pubkey sigt p (a_addrs a) (p_md p) :: l2)%list)) = false).
+Proof. exact entry_values_cleared_or_copied_rejected. Qed.
+Print Assumptions entry_value_cleared_or_copied_from_ad_rejected.
